@@ -352,12 +352,16 @@ func (rf *ReplicaFollower) handleResp(err error, resp *pb.SyncResponse, args ...
 		} else if resp.GetCode() == pb.SyncResponse_HANDOVER {
 			err = fmt.Errorf("takeover leadership : %w, leader(%d)", ErrLeaderTakeover, resp.GetOffset())
 		} else if resp.GetCode() == pb.SyncResponse_CLEAR {
+			// the leader cannot serve this follower from what it holds : the answer is never a
+			// snapshot header nor a chunk of the stream, whoever receives it
 			if len(args) == 1 {
 				runId := args[0].(string)
 				rf.channel.DelRunId(runId)
-				err = fmt.Errorf("code is error : %s", resp.GetMeta().GetMsg())
 			}
+			err = fmt.Errorf("code is clear : %s", resp.GetMeta().GetMsg())
 			rf.wait.Sleep(1 * time.Second)
+		} else if resp.GetCode() != pb.SyncResponse_META && resp.GetCode() != pb.SyncResponse_CONTINUE {
+			err = fmt.Errorf("unknown code(%d) : %s", resp.GetCode(), resp.GetMeta().GetMsg())
 		}
 	}
 	return err
@@ -437,11 +441,11 @@ func (rf *ReplicaFollower) metaSync(sp StartPoint, cli pb.ApiServiceClient) (pb.
 		Node:   &pb.Node{RunId: sp.RunId, Address: rf.inputAddress},
 		Offset: sp.Offset,
 	})
-	if err = rf.handleResp(err, nil, sp.RunId); err != nil {
+	if err = rf.handleResp(err, nil); err != nil {
 		return nil, nil, err
 	}
 	resp, err := stream.Recv()
-	if err = rf.handleResp(err, resp); err != nil {
+	if err = rf.handleResp(err, resp, sp.RunId); err != nil {
 		return nil, nil, err
 	}
 	return stream, resp, nil
